@@ -211,9 +211,10 @@ op_open (char **tok, int ntok)
 			if (close_desc && h->sf != NULL) h->fd = -1 - h->fd ;	/* remember number, library owns it */
 			}
 		}
-	else if (!strcmp (route, "pipe") && mode == SFM_READ)
-	{	/* non-seekable input: a child process feeds the store into a pipe */
-		int pfd [2] ; pid_t pid ;
+	else if (!strncmp (route, "pipe", 4) && (route [4] == 0 || route [4] == ':') && mode == SFM_READ)
+	{	/* non-seekable input: a child process feeds the store into a pipe; pipe:<n> delivers it n bytes at a time with a pause in
+		** between, so that read () on the other end returns short counts */
+		int pfd [2] ; pid_t pid ; long piece = route [4] == ':' ? atol (route + 5) : 0 ;
 		if (pipe (pfd) != 0) { printf ("bad-route\n") ; return ; }
 		fflush (stdout) ;
 		pid = fork () ;
@@ -223,9 +224,13 @@ op_open (char **tok, int ntok)
 			signal (SIGPIPE, SIG_DFL) ;
 			alarm (0) ;
 			while (done < s->len)
-			{	ssize_t r = write (pfd [1], s->buf + done, s->len - done) ;
+			{	sf_count_t want = s->len - done ;
+				ssize_t r ;
+				if (piece > 0 && want > piece) want = piece ;
+				r = write (pfd [1], s->buf + done, want) ;
 				if (r <= 0) break ;
 				done += r ;
+				if (piece > 0) usleep (60) ;
 				}
 			_exit (0) ;
 			}
@@ -561,6 +566,7 @@ run_line (char *line)
 	else if (!strcmp (tok [0], "fault")) op_fault (tok, ntok) ;
 	else if (!strcmp (tok [0], "iolog")) op_iolog (tok, ntok) ;
 	else if (!strcmp (tok [0], "ledger")) op_ledger (tok, ntok) ;
+	else if (!strcmp (tok [0], "fdw")) op_fdworld (tok, ntok) ;
 	else if ((!strcmp (tok [0], "getmeta") || !strcmp (tok [0], "setcues")) && ntok >= 2) op_meta (tok, ntok) ;
 	else if (!strcmp (tok [0], "cseek")) op_cseek (tok, ntok) ;
 	else if (!strcmp (tok [0], "iostat")) printf ("calls=%ld fired=%ld\n", fault.calls, fault.fired) ;
